@@ -20,6 +20,8 @@ Obs ==
    cost  |-> [c \in 1..Len(CostNames) |->
                LET mc == MinCost(CostNames[c], part) IN
                [i \in U |-> IF Represented(part, eqs, i) THEN mc[part[i]] ELSE 0]],
+   \* leaf-operator analysis (join = union), per class label (empty for indices that are not labels)
+   leaf  |-> LET lo == LeafOps(part) IN [i \in U |-> IF part[i] = i /\ Represented(part, eqs, i) THEN SetToSeq(lo[i]) ELSE << >>],
    \* expected e-matching results (EMatch.tla); empty pattern pool = not asked for
    mt    |-> MatchObs(part, eqs),
    nored |-> IF Patterns = << >> THEN TRUE ELSE NoRedundancy(part, eqs)]
